@@ -127,7 +127,9 @@ func cellComp(so Sort) string               { return "P!" + sanitize(string(so))
 func mapDomComp(k, v Sort) string           { return "MD!" + sanitize(string(k)) + "!" + sanitize(string(v)) }
 func mapValComp(k, v Sort) string           { return "MV!" + sanitize(string(k)) + "!" + sanitize(string(v)) }
 
-const mapSizeComp = "MS"
+// mapSizeComp: map sizes, one component per (key sort, value sort) like the
+// domain/value components, so that maps of different types never alias
+func mapSizeComp(ks, vs Sort) string { return "MS!" + sanitize(string(ks)) + "!" + sanitize(string(vs)) }
 const allocComp = "alloc"
 
 func memSort(elem Sort) Sort { return ArraySort(SInt, ArraySort(SInt, elem)) }
@@ -565,7 +567,8 @@ func (e *SpecEnv) call(x ECall) SVal {
 		case *types.Basic:
 			return SVal{T: StrLen(v.T)}
 		case *types.Map:
-			return SVal{T: Ite(Eq(v.T, IntLit(0)), IntLit(0), Sel(e.Heap.Comp(mapSizeComp, ArraySort(SInt, SInt)), v.T))}
+			mks, mvs := e.W.Sorts.SortOf(u.Key()), e.W.Sorts.SortOf(u.Elem())
+			return SVal{T: Ite(Eq(v.T, IntLit(0)), IntLit(0), Sel(e.Heap.Comp(mapSizeComp(mks, mvs), ArraySort(SInt, SInt)), v.T))}
 		case *types.Array:
 			return SVal{T: IntLit(u.Len())}
 		case *types.Pointer:
